@@ -17,7 +17,7 @@ at a sphere centre / on the axis of a centred cylinder the code deliberately ret
 real code was run there: finding `safety-inf-at-center`); `LevelXf.Iso` = rotation matrices
 are orthonormal (documented precondition of `Transformation`).
 -/
-import CelerVerif.Lemmas.SafetyMax
+import CelerVerif.Lemmas.SafetyMove
 
 namespace CelerVerif.Safety
 open CelerVerif CelerVerif.Surf
@@ -216,6 +216,29 @@ theorem max_overload_contract_suffices (r : Option ℝ) (m : ℝ) (levels : List
     (x y : Vec3 ℝ) (hiso : ∀ l ∈ levels, l.xf.Iso) (hcap : CapEq r (findSafety levels x) m)
     (h : SeparatedAtSomeLevel levels x y) (hd : dist3 x y < m) : OLe r (dist3 x y) :=
   capped_conservative r _ m _ hcap (min_over_levels levels x y hiso h) hd
+
+/-! ### `find_safety` after `set_dir` + `move_internal` -/
+
+/-- `find_safety` depends on the stored per-level positions only: evaluated on the
+    transform-down chain of a global point it is `findSafety` of that point (so every theorem
+    above applies to whatever global point the stored positions are the chain of) -/
+theorem find_safety_depends_on_level_positions (levels : List (Level ℝ)) (x : Vec3 ℝ) :
+    findSafetyAt levels (levelPositions levels x) = findSafety levels x :=
+  findSafetyAtFrom_chain none levels x
+
+/-- ★ `move_internal(t)` (axpy of the stored local direction into the stored local position at
+    every level) keeps the per-level positions equal to the transform-down chain of the moved
+    global position `x + t·d`, PROVIDED the stored local directions are the rotate-DOWN chain of
+    the global direction `d` (what `set_dir` must write; any transform, no orthogonality
+    needed).  Hence the safety reported after set_dir + move_internal is the safety of the
+    moved global point. -/
+theorem move_internal_keeps_level_positions (levels : List (Level ℝ)) (t : ℝ) (d x : Vec3 ℝ) :
+    moveInternal t (levelDirections levels d) (levelPositions levels x)
+        = levelPositions levels (Vec3.axpy t d x)
+    ∧ findSafetyAt levels (moveInternal t (levelDirections levels d) (levelPositions levels x))
+        = findSafety levels (Vec3.axpy t d x) := by
+  have h := moveInternal_chain levels t d x
+  exact ⟨h, by rw [h]; exact findSafetyAtFrom_chain none levels _⟩
 
 /-! ### tie to the current source text (Generated/SafetySource.lean) -/
 
